@@ -1,6 +1,8 @@
 package props
 
 import (
+	"golang.org/x/tools/go/ssa"
+
 	"rtpcheck/core"
 )
 
@@ -26,10 +28,51 @@ func fragmentLayout(c *Ctx, fnName string, table []string, what, prefix string, 
 		return 0
 	}
 	es := loopEmits(c, fn)
+	if len(es) < wantBuffers && movedFragmentLoop(c, fn) {
+		// the fragment loop was moved into a helper function: the header octets are built from that helper's
+		// parameters, which this function-local table cannot name: not decided, not a violation
+		c.R.Infof("BITS.frag %s: the fragment loop lives in a helper of %s; its header table is not decided", what, core.FuncName(fn))
+		return -1
+	}
 	c.R.Add("BITS.frag", core.FuncName(fn), what+": fragment buffer found", c.Prog.Position(fn.Pos()), len(es) >= wantBuffers, "no fragment buffer allocated in a loop and appended to the result")
 	n := 0
 	for _, e := range es {
 		n += checkBytes(c, "BITS.frag", e, what, table, prefix)
 	}
 	return n
+}
+
+// movedFragmentLoop: a static callee (same module) of fn or of its closures allocates a buffer in a loop and
+// appends it to a [][]byte.
+func movedFragmentLoop(c *Ctx, fn *ssa.Function) bool {
+	seen := map[*ssa.Function]bool{}
+	var visit func(f *ssa.Function, depth int) bool
+	visit = func(f *ssa.Function, depth int) bool {
+		if seen[f] || depth > 3 {
+			return false
+		}
+		seen[f] = true
+		for _, b := range f.Blocks {
+			for _, in := range b.Instrs {
+				call, ok := in.(*ssa.Call)
+				if !ok {
+					continue
+				}
+				cal := call.Call.StaticCallee()
+				if cal == nil || !core.InModule(cal) || len(cal.Blocks) == 0 {
+					continue
+				}
+				if len(loopEmits(c, cal)) > 0 || visit(cal, depth+1) {
+					return true
+				}
+			}
+		}
+		for _, a := range f.AnonFuncs {
+			if visit(a, depth) {
+				return true
+			}
+		}
+		return false
+	}
+	return visit(fn, 0)
 }
